@@ -10,8 +10,9 @@ fn free_port() -> u16 { std::net::TcpListener::bind("127.0.0.1:0").unwrap().loca
 #[test]
 fn vf_out_delete_all() {
     let (mut checked, mut bad) = (0u64, 0u64);
-    for (what, elsewhere, linked) in [("started in the configuration's directory", false, false), ("started in another directory, configuration given with -f", true, false),
-        ("with the output directory being a symbolic link to a directory kept elsewhere (a cache volume)", false, true)] {
+    for (what, elsewhere, linked, absolute) in [("started in the configuration's directory", false, false, false), ("started in another directory, configuration given with -f", true, false, false),
+        ("with the output directory being a symbolic link to a directory kept elsewhere (a cache volume)", false, true, false),
+        ("with `out_dir` an absolute path outside the repository", false, false, true)] {
         checked += 1;
         let td = tempfile::tempdir().unwrap();
         let proj = td.path().join("proj");
@@ -25,15 +26,19 @@ fn vf_out_delete_all() {
         let mut perm = std::fs::metadata(&script).unwrap().permissions(); perm.set_mode(0o755); std::fs::set_permissions(&script, perm).unwrap();
         let cfg = proj.join("Monorail.json");
         let (lp, kp) = (free_port(), free_port());
-        std::fs::write(&cfg, format!("{{\"targets\":[{{\"path\":\"t1\"}}],\"server\":{{\"log\":{{\"port\":{}}},\"lock\":{{\"port\":{}}}}}}}", lp, if kp == lp { kp + 1 } else { kp })).unwrap();
+        let out_root = if absolute { td.path().join("volume/abs-out") } else { proj.join("monorail-out") };
+        if absolute { std::fs::create_dir_all(&out_root).unwrap(); }
+        std::fs::write(&cfg, format!("{{{}\"targets\":[{{\"path\":\"t1\"}}],\"server\":{{\"log\":{{\"port\":{}}},\"lock\":{{\"port\":{}}}}}}}", if absolute { format!("\"out_dir\":\"{}\",", out_root.display()) } else { String::new() }, lp, if kp == lp { kp + 1 } else { kp })).unwrap();
         let cwd = if elsewhere { &other } else { &proj };
         // a run leaves recorded output and a run pointer below <configuration directory>/monorail-out; a stand-in checkpoint file joins them
         let run = Command::new(BIN).current_dir(cwd).arg("-f").arg(&cfg).args(["run", "-c", "hello", "-t", "t1"]).output().unwrap();
         if !run.status.success() { bad += 1; println!("VF-FAIL `out delete --all` {} :: the preparing run failed (C19)", what); continue; }
-        let cp = proj.join("monorail-out/tracking/checkpoint.json.zst");
+        // the run's records (and the checkpoint) live below the configured output directory - the one `out delete` will be pointed at
+        if !out_root.join("tracking/run.json").exists() { bad += 1; println!("VF-FAIL `out delete --all` {} :: the preparing run did not record itself below the configured output directory {:?} (C19)", what, out_root); continue; }
+        let cp = out_root.join("tracking/checkpoint.json.zst");
         std::fs::write(&cp, b"stand-in").unwrap();
         let del = Command::new(BIN).current_dir(cwd).arg("-f").arg(&cfg).args(["out", "delete", "--all"]).output().unwrap();
-        let left: Vec<String> = std::fs::read_dir(proj.join("monorail-out")).map(|d| d.flatten().map(|e| e.file_name().to_string_lossy().to_string()).collect()).unwrap_or_default();
+        let left: Vec<String> = std::fs::read_dir(&out_root).map(|d| d.flatten().map(|e| e.file_name().to_string_lossy().to_string()).collect()).unwrap_or_default();
         let precious = other.join("monorail-out/precious/file").exists();
         if !del.status.success() || cp.exists() || !left.is_empty() || !precious {
             bad += 1;
